@@ -1,9 +1,9 @@
-(* C07 - corollaries of soundness (ProofsGSound.g_sound) and completeness (ProofsGComplete.g_complete) for the general
+(* C07 - corollaries of soundness (ProofsGSound.g_sound) and completeness (ProofsGComplete2.g_complete) for the general
    description SpecG.v: exact characterisation of the accepted byte strings, well-definedness of the denotation,
    rejection of everything else, the narrower layout of Spec.v as a special case, NUL-free texts. *)
 Require Import V.Lib.Base V.Lib.Calls V.Lib.Dec V.C09.Spec V.Gen.Consts V.Gen.Consts_C07.
 Require Import V.C07.Model V.C07.Spec V.C07.SpecG V.C07.ProofsLex V.C07.ProofsGram V.C07.ProofsTop V.C07.ProofsContract.
-Require Import V.C07.ProofsGLex V.C07.ProofsGSound V.C07.ProofsGComplete.
+Require Import V.C07.ProofsGLex V.C07.ProofsGSound V.C07.ProofsGComplete V.C07.ProofsGComplete2.
 Local Open Scope Z_scope.
 
 Definition describes (o : opts) (p : gprog) (t : list Z) : Prop :=
